@@ -87,11 +87,12 @@ func conflictingObjectName(name string) error {
 		"object key %q cannot be stored by this backend: it is, or lies below, the path of an existing key", name)
 }
 
-// isNotExist is os.IsNotExist, except that it also covers ENOTDIR: asking for
-// "a/b" while "a" is a regular file means "a/b" does not exist, it is not an
-// internal error.
+// isNotExist is os.IsNotExist, except that it also covers ENOTDIR and
+// ENAMETOOLONG: asking for "a/b" while "a" is a regular file means "a/b" does
+// not exist, and so does asking for a name the file system could never hold;
+// neither is an internal error.
 func isNotExist(err error) bool {
-	return os.IsNotExist(err) || errors.Is(err, syscall.ENOTDIR)
+	return os.IsNotExist(err) || errors.Is(err, syscall.ENOTDIR) || errors.Is(err, syscall.ENAMETOOLONG)
 }
 
 // dirExists reports whether name is a directory; a name that does not exist
